@@ -310,6 +310,8 @@ class Machine:
                 if pvs is not None and pvs[0]:
                     # some leaves of the pointer are not enumerable (uninitialised memory, unconstrained input):
                     # the enumerable part is explored, the rest must be unreachable (else the scenario is inconclusive)
+                    if _DEBUG and And(g, pvs[1]) is not False:
+                        print('PARTIAL pointer at', self.where(), 'keys', [hex(k) for k in pvs[0]], 'term', T.show(p, 9)[:1500])
                     self.defer_unsupported(And(g, pvs[1]), '%s through a pointer with non-enumerable values (%s)' % (what, self.where()))
                     return sorted(pvs[0].items())
             if pv is None:
@@ -364,8 +366,13 @@ class Machine:
             if isinstance(size, Term):
                 pv = possible_values(size, 64, 64, self.ranges)
                 if pv is None:
-                    if not self.tolerant: self.defer_unsupported(g, 'symbolic allocation size %s in %s' % (T.show(size, 6)[:300], self.where()))
-                    pv = [256]
+                    pvs = T.get_pvs(size)
+                    if pvs is not None and pvs[0]:
+                        if not self.tolerant: self.defer_unsupported(And(g, pvs[1]), 'allocation size with non-enumerable values in %s' % self.where())
+                        pv = list(pvs[0])
+                    else:
+                        if not self.tolerant: self.defer_unsupported(g, 'symbolic allocation size %s in %s' % (T.show(size, 6)[:300], self.where()))
+                        pv = [256]
                 csize = max(pv)
             else: csize = size
             if csize > HEAP_SLOT * 8:
